@@ -24,6 +24,8 @@ func main() {
 		os.Exit(check(os.Args[2:]))
 	case "thorough":
 		os.Exit(thorough(os.Args[2:]))
+	case "seeded":
+		os.Exit(seededAll(os.Args[2:]))
 	case "benign":
 		os.Exit(benignAll(os.Args[2:]))
 	case "mutant":
